@@ -743,6 +743,158 @@ def storage_consts_used(engine, crate):
     return out
 
 
+def _attr_items(txt):
+    """`#[serde(a, b = "x", c(d = "y"))]` -> [("a", None), ("b", '"x"'), ("c", '(d = "y")')]; [] for other attributes"""
+    import re as _re
+    m = _re.match(r"^#\[\s*serde\s*\((.*)\)\s*\]$", txt.strip(), _re.S)
+    if not m:
+        return None
+    body, out, depth, cur, q = m.group(1), [], 0, "", False
+    for ch in body:
+        if q:
+            cur += ch
+            if ch == '"':
+                q = False
+            continue
+        if ch == '"':
+            q = True
+        if ch in "([{":
+            depth += 1
+        if ch in ")]}":
+            depth -= 1
+        if ch == "," and depth == 0:
+            out.append(cur)
+            cur = ""
+        else:
+            cur += ch
+    out.append(cur)
+    items = []
+    for it in out:
+        it = it.strip()
+        if not it:
+            continue
+        m2 = _re.match(r"^(\w+)\s*(?:=\s*(.*)|(\(.*\)))?$", it, _re.S)
+        items.append((m2.group(1), (m2.group(2) or m2.group(3) or None)) if m2 else (it, None))
+    return items
+
+
+# predicates after which a skipped field reads back as the value that was skipped (given the field's absent-value)
+_EMPTY_PREDICATES = ("Option::is_none", "Vec::is_empty", "String::is_empty", "BTreeMap::is_empty", "HashMap::is_empty")
+
+
+def _codec_verdict(where, items, fty):
+    """why the serde attributes `items` on a container / variant / field make a stored or relayed value read back differently
+    from what was written (None: they do not); `where` is "container" | "variant" | "field" """
+    keys = dict(items)
+    for k, v in items:
+        if k in ("skip", "skip_serializing", "skip_deserializing"):
+            if where == "field" and fty and fty.startswith(("std::marker::PhantomData", "core::marker::PhantomData", "()")):
+                continue
+            return "`%s`: the value is %s" % (k, "not written, so it reads back as the default" if k != "skip_deserializing"
+                                              else "written but never read back")
+        if k == "skip_serializing_if":
+            pred = (v or "").strip().strip('"')
+            absent_ok = (fty or "").startswith(("std::option::Option<", "core::option::Option<")) or "default" in keys
+            if not (pred.endswith(_EMPTY_PREDICATES) and absent_ok):
+                return ("`skip_serializing_if = %s`: not one of the recognised is-empty predicates on a field whose absence reads "
+                        "back as that empty value" % v)
+            continue
+        if k in ("rename", "rename_all") and v and v.strip().startswith("("):
+            inner = dict(_attr_items("#[serde%s]" % v.strip()) or [])
+            if inner.get("serialize") != inner.get("deserialize"):
+                return "`%s%s`: written and read under different names" % (k, v.strip())
+            continue
+        if k in ("with", "serialize_with", "deserialize_with", "getter", "from", "try_from", "into", "remote", "other"):
+            return "`%s`: a hand-chosen codec this check does not analyse" % k
+        if k in ("default", "alias", "rename", "rename_all", "rename_all_fields", "deny_unknown_fields", "crate", "bound", "borrow",
+                 "expecting", "tag", "content"):
+            continue
+        return "`%s`: not a serde attribute this check knows to keep the round trip intact" % k
+    return None
+
+
+def check_codec(ctx, crates):
+    """A-CODEC made checkable.  The engine treats save -> load and message -> JSON -> message as the identity because the codec
+    bodies are serde's derive output, which is not analysed.  That holds unless a serde attribute on a workspace type asks the
+    derive for something else (skip, custom codec, asymmetric rename) or the codec is written by hand."""
+    ctx.rule_texts["CODEC"] = ("what a contract stores or relays reads back as what was written: no workspace type its code touches "
+                               "carries a serde attribute that drops a field or variant on one side of the round trip (skip, "
+                               "skip_serializing[_if] without a matching absent-value, skip_deserializing), names it differently on "
+                               "the two sides, or substitutes a codec that is not serde's derive; and none has a hand-written "
+                               "Serialize / Deserialize impl")
+    F = ctx.engine.facts
+    import re as _re
+    seen = set()
+    kept = []
+    n_adt = n_attr = 0
+    # the workspace types the traversed functions handle (their MIR locals), closed under field types
+    by_pretty = {}
+    for k, a in F.adts.items():
+        if a and a.get("local"):
+            by_pretty.setdefault(a.get("pretty") or k, k)
+            by_pretty.setdefault(k, k)
+
+    def named(ty):
+        return [by_pretty[t] for t in _re.findall(r"[A-Za-z_][A-Za-z0-9_:]*", ty or "") if t in by_pretty]
+    work = []
+    for bp in sorted(ctx.engine.stat_bodies):
+        b = F.bodies.get(bp)
+        if b is not None:
+            for l in b.locals:
+                work += named(l.get("ty"))
+    for crate in crates:      # ... and, before anything was traversed, whatever the property's crates mention
+        work += [k for k in sorted((F.crates.get(crate) or {}).get("adts") or {}) if not ctx.engine.stat_bodies]
+    reach = set()
+    while work:
+        k = work.pop()
+        if k in reach or not (F.adts.get(k) or {}).get("local"):
+            continue
+        reach.add(k)
+        for v in F.adts[k]["variants"]:
+            for f in v["fields"]:
+                work += named(f.get("ty"))
+    for crate in [None]:
+        for k in sorted(reach):
+            a = F.adts.get(k)
+            if not a or not a.get("local") or k in seen:
+                continue
+            seen.add(k)
+            n_adt += 1
+            site = (a.get("file") or "?", a.get("line") or 0, k)
+            todo = [("container", k, a.get("attrs") or [], None, a.get("line"))]
+            for v in a["variants"]:
+                if a["kind"] == "enum":
+                    todo.append(("variant", "%s::%s" % (k, v["name"]), v.get("attrs") or [], None, a.get("line")))
+                for f in v["fields"]:
+                    nm = "%s::%s.%s" % (k, v["name"], f["name"]) if a["kind"] == "enum" else "%s.%s" % (k, f["name"])
+                    todo.append(("field", nm, f.get("attrs") or [], f.get("ty"), f.get("line") or a.get("line")))
+            for where, nm, attrs, fty, line in todo:
+                items = []
+                for t in attrs:
+                    it = _attr_items(t)
+                    if it:
+                        items += it
+                if not items:
+                    continue
+                n_attr += 1
+                why = _codec_verdict(where, items, fty)
+                if why is not None:
+                    ctx.ob("CODEC", "%s %s" % (where, nm), False, detail="%s carries serde %s" % (nm, why),
+                           sites=[(a.get("file") or "?", line or 0, k)])
+                elif where != "container":
+                    kept.append("%s: %s" % (nm, ", ".join(x[0] for x in items)))
+    hand = []
+    for pth in sorted(F.bodies):
+        m = _re.search(r"serde::(?:ser::)?Serialize for (.+?)>::|serde::(?:de::)?Deserialize(?:<[^>]*>)? for (.+?)>::", pth)
+        if m and (m.group(1) or m.group(2)).split("<")[0] in seen:
+            hand.append(pth)
+    for pth in hand:
+        ctx.ob("CODEC", "hand-written codec %s" % pth, None,
+               detail="UNDECIDED: %s is written by hand; the summariser models (de)serialisation as the identity only for serde's derive" % pth)
+    ctx.ob("CODEC", "workspace types examined", n_adt >= 1, detail="no workspace type found in the facts of %s" % (crates,),
+           sample={"types": n_adt, "items with serde attributes": n_attr, "field / variant attributes accepted": kept[:8]})
+
+
 def check_storage_namespaces(ctx, crates):
     ctx.rule_texts["STORAGE"] = ("every storage accessor a contract uses (its own consts and those it imports from another crate) has "
                                  "namespace literals that are pairwise distinct: two accessors on one namespace alias the same cells, so "
